@@ -105,6 +105,15 @@ def gen_archives(ctx, rng, tmp):
             members.append({"name": "onlydir%d" % len(members), "kind": "dir", "data": b"", "attr": None, "mtime": 130000000000000000, "ctime": None, "atime": None})
         lay = c06.gen_layout(rng, members, feat)
         out.append(("ref:" + feat, refwriter.build(members, lay, rng), lay["password"]))
+    # a password supplied where no content folder has an encryption coder: a plain archive opened with an unneeded
+    # password, and header encryption over content whose chain was given without 7zAES
+    small = [("pw/a.txt", b"alpha" * 9), ("pw/b.txt", b"beta" * 7), ("pw/c.bin", bytes(range(60)))]
+    out.append(("own:plain+unneeded-password", arclib.write_archive(small), "unneeded"))
+    out.append(("own:plain-raw+unneeded-password", arclib.write_archive(small[:2], header="raw"), "x"))
+    out.append(("own:header-encrypted/content-LZMA2-only", arclib.write_archive(small, filters=[{"id": arclib.FILTER_LZMA2, "preset": 1}], password="pw", header="encrypted"), "pw"))
+    out.append(("own:header-encrypted/content-Copy-only", arclib.write_archive(small, filters=[{"id": arclib.FILTER_COPY}], password="pw", header="encrypted"), "pw"))
+    out.append(("own:header-encrypted", arclib.write_archive(small, password="pw", header="encrypted"), "pw"))
+    out.append(("own:content-encrypted", arclib.write_archive(small, password="pw"), "pw"))
     for fn in ("test_1.7z", "test_6.7z", "solid.7z", "umlaut-non_solid.7z", "mblock_1.7z", "encrypted_1.7z", "lzma2delta_1.7z", "copy.7z", "test_folder.7z", "empty.7z"):
         p = os.path.join("/repo/tests/data", fn)
         if os.path.exists(p):
